@@ -3,6 +3,7 @@
 package main
 
 import (
+	"sync/atomic"
 	"bytes"
 	"encoding/json"
 	"fmt"
@@ -274,7 +275,12 @@ func bwsFaultReplay(b bfBeh, size int, viaLogger bool, prop string, wrap int) (f
 				}
 			}
 			if !done {
-				return finds, fmt.Sprintf("step %d: tick not processed within 2 s; history=%v", i, bfDescribe(b))
+				// not stopped, started, a tick delivered - and nobody syncs the sink: the flush loop is gone
+				if prop != "C12" {
+					return finds, fmt.Sprintf("step %d: tick not processed within 2 s; history=%v", i, bfDescribe(b))
+				}
+				add("tick-ack", "step %d: a flush tick was delivered to a running syncer and was not processed within 2 s (earlier ticks were)", i)
+				return finds, ""
 			}
 			// the loop body still holds the lock until it returns; the next operation serialises behind it
 		case "S":
@@ -357,5 +363,74 @@ func runBwsFault(c *Ctx, prop string) {
 	c.Set("bws_sink_fault_model_disagreements", int64(ndrift))
 	if ndrift*20 > n {
 		c.Inconclusive("BWSFault.tla and the code disagree on %d of %d histories: the model no longer describes the code", ndrift, n)
+	}
+}
+
+// bwsSinkExclusion: the wrapped sink need not be safe for concurrent use (the documentation says no zapcore.Lock is
+// needed under a BufferedWriteSyncer): while one goroutine's Sync is inside the sink, no other call enters it.
+func bwsSinkExclusion(c *Ctx) {
+	for _, first := range []string{"sync", "tick", "write"} {
+		gs := &gateSink{arrived: make(chan string, 8), release: make(chan struct{})}
+		clk := newHarnessClock()
+		b := &zapcore.BufferedWriteSyncer{WS: gs, Size: 16, FlushInterval: time.Hour, Clock: clk}
+		free := func() { // let whatever is parked in the sink go on
+			for {
+				select {
+				case gs.release <- struct{}{}:
+				case <-time.After(300 * time.Millisecond):
+					return
+				}
+			}
+		}
+		// a small write that stays in the buffer (starts the flush loop)
+		b.Write([]byte("aaaa"))
+		switch first {
+		case "sync":
+			go b.Sync()
+		case "tick":
+			clk.ch <- time.Now()
+		case "write":
+			go b.Write([]byte("an oversized record that goes straight to the sink"))
+		}
+		var in1 string
+		select {
+		case in1 = <-gs.arrived:
+		case <-time.After(2 * time.Second):
+			c.Note("bwsSinkExclusion: the first call (%s) never reached the sink", first)
+			go free()
+			b.Stop()
+			continue
+		}
+		if first != "write" && in1 == "W" {
+			// the flush of the first call: let it finish and wait for the same call to enter the sink's Sync
+			gs.release <- struct{}{}
+			select {
+			case in1 = <-gs.arrived:
+			case <-time.After(2 * time.Second):
+				c.Note("bwsSinkExclusion: the sink's Sync was never called (%s)", first)
+				go free()
+				b.Stop()
+				continue
+			}
+		}
+		// a second caller whose call needs the sink
+		go b.Write([]byte("another oversized record, straight to the sink"))
+		select {
+		case in2 := <-gs.arrived:
+			c.Violation("C12/sink-overlap", fmt.Sprintf("the sink's %s (reached through %s) was still in progress when a Write from another goroutine entered the sink (%s): calls into the wrapped sink overlap", in1, first, in2), map[string]interface{}{"mode": "sink-exclusion", "first": first})
+		case <-time.After(30 * time.Millisecond):
+		}
+		go free()
+		done := make(chan struct{})
+		go func() { defer close(done); defer func() { recover() }(); b.Stop() }()
+		select {
+		case <-done:
+		case <-time.After(5 * time.Second):
+			c.Inconclusive("bwsSinkExclusion: Stop did not return")
+		}
+		if atomic.LoadInt32(&gs.overlap) != 0 {
+			c.Violation("C12/sink-overlap", "calls into the wrapped sink overlapped (first call: "+first+")", map[string]interface{}{"mode": "sink-exclusion", "first": first})
+		}
+		c.Add("traces_validated_against_impl", 1)
 	}
 }
